@@ -17,6 +17,7 @@ from typing import Any, Dict, List, Tuple
 from mcx.core import Ctx, HarnessError, Part, VERIF, digest, pmap
 from odxmodel import harness, refodx, space
 from odxmodel.harness import jval, show, unjval
+from checks.codec_common import library_for, minimize_keys, tagkey
 
 PROPERTY = "C02"
 LEVEL = "model_checking"
@@ -28,7 +29,7 @@ def backend() -> str:
 
 def check_program(L: harness.Loaded, prog: Dict[str, Any], part: Part, bk: str) -> None:
     msg = L.msg[prog["pid"]]
-    tag = "/".join(prog["tags"][:2])
+    tag = tagkey(prog)
     for values in prog["assign"]:
         part.count("evaluations")
         case = {"program": prog_case(prog), "values": jval(values), "backend": bk}
@@ -55,6 +56,8 @@ def check_program(L: harness.Loaded, prog: Dict[str, Any], part: Part, bk: str) 
         if bool(ov) != bool(e.overlap):
             part.violation(f"C02/{tag}/overlap-warning-{'missing' if e.overlap else 'spurious'}/{bk}", case,
                            f"reference overlap={e.overlap}, warnings={ov[:1]}")
+        if e.overlap:
+            continue  # overwritten bits: the decode expectation is meaningless
         dec, dexc = harness.odx_decode(msg, ref_pdu)
         if dexc is not None:
             part.violation(f"C02/{tag}/decode-raises/{bk}", case, f"{type(dexc).__name__}: {dexc} on {ref_pdu.hex()}")
@@ -65,7 +68,7 @@ def check_program(L: harness.Loaded, prog: Dict[str, Any], part: Part, bk: str) 
 
 def prog_case(prog: Dict[str, Any]) -> Dict[str, Any]:
     return {"pid": prog["pid"], "dops": prog["dops"], "params": prog["params"], "kind": prog.get("kind", "REQUEST"),
-            "request": jval(prog.get("request")), "tags": prog["tags"]}
+            "request": jval(prog.get("request")), "tags": prog["tags"], "library": prog.get("library", False)}
 
 
 def unit_fn(unit: Tuple[str, List[Dict[str, Any]]]) -> Part:
@@ -73,13 +76,13 @@ def unit_fn(unit: Tuple[str, List[Dict[str, Any]]]) -> Part:
     part = Part()
     bk = backend()
     try:
-        L = harness.Loaded(progs)
+        L = harness.Loaded(progs, library_for(progs))
     except Exception as ex:  # a program the loader refuses: localise it
         for p in progs:
             try:
-                harness.Loaded([p])
+                harness.Loaded([p], library_for([p]))
             except Exception as ex2:
-                part.violation(f"C02/{'/'.join(p['tags'][:2])}/load-fails", {"program": prog_case(p), "values": None, "backend": bk},
+                part.violation(f"C02/{tagkey(p)}/load-fails", {"program": prog_case(p), "values": None, "backend": bk},
                                f"{type(ex2).__name__}: {ex2}")
         return part
     part.count("programs", len(progs))
@@ -93,7 +96,7 @@ def unit_fn(unit: Tuple[str, List[Dict[str, Any]]]) -> Part:
 
 
 def units_for(ctx: Ctx) -> List[Tuple[str, List[Dict[str, Any]]]]:
-    return space.layer_a_units(ctx.quick)
+    return space.layer_a_units(ctx.quick) + space.layer_c_units(ctx.quick) + space.layer_c_units(ctx.quick, overlap=True)
 
 
 def run(ctx: Ctx) -> None:
@@ -106,6 +109,7 @@ def run(ctx: Ctx) -> None:
     ctx.assumptions = ["reference interpreter odxmodel/refodx.py encodes ISO 22901-1 7.3.6 as listed in DESIGN.md appendix C",
                        "values the reference rejects are C04's business; constructs outside the envelope are skipped and counted (dont_care)"]
     pmap(ctx, unit_fn, units)
+    minimize_keys(ctx)
     ctx.counts["traces_validated_against_impl"] = ctx.counts.get("compared", 0)
     ctx.sample({"program": "i_Ux_l_12_3_a", "values": {"v": 2748}, "pdu": "e055"})
     ctx.guard("compared > 1000", ctx.counts.get("compared", 0) > 1000)
@@ -148,6 +152,6 @@ def replay(case: Any) -> List[Tuple[str, str]]:
         return [tuple(x) for x in json.loads(line[-1][len("SUBRESULT "):])]
     p = case["program"]
     prog = {"pid": p["pid"], "dops": p["dops"], "params": p["params"], "kind": p.get("kind", "REQUEST"),
-            "request": unjval(p.get("request")), "tags": p["tags"], "assign": [unjval(case["values"])] if case["values"] is not None else []}
+            "request": unjval(p.get("request")), "tags": p["tags"], "library": p.get("library", False), "assign": [unjval(case["values"])] if case["values"] is not None else []}
     part = unit_fn(("replay", [prog]))
     return [(k, v[2]) for k, v in part.viol.items()]
